@@ -1,6 +1,7 @@
 import Proofs.Small
 import Proofs.ForPrefixes
 import Proofs.LinkLists
+import Proofs.Windup
 /-! C08 — per-webentity link queries. Proved so far: every returned link comes from a page of the
     webentity walk, carries the multiplicity of its target in that page's list, passes exactly the
     switch test stated by the property (internal: target resolves to W; outbound: elsewhere or nowhere;
@@ -53,5 +54,11 @@ theorem C08_cited_is_set (s : State) (ps : List Bytes) (out : Bool) (l : List Na
       if head ≠ 0 then (s.deduped head).map (fun t => s.windupWe t) else [])) with
   | error e => rw [hf] at h; cases h
   | ok xs => rw [hf] at h; cases h; exact sortDedup_sorted _
+
+/-- the webentity found by walking UP from a link end is the top-down resolution of that end's LRU, and the
+    LRU reported for it is its own path: the switch test of `C08_out_of_page` is the property's test -/
+theorem C08_end_resolution {s : State} {t : T} (h : Shape s t) (hp : ParOk s t 0) {p : LRU} {b : Nat}
+    (hb : (p, b) ∈ t.entries s []) : s.windupWe b = (s.followLru p).2.we ∧ s.windup b = p.flatten :=
+  ⟨windupWe_eq_followLru h hp hb, windup_eq h hp hb⟩
 
 end Traph.Props
